@@ -52,6 +52,9 @@ def _case(draw):
     if solver.startswith("Scipy"):
         dt = max(dt, 5e-3)
     return {"mech": mech, "solver": solver, "dt": dt, "nsteps": nsteps,
+            # ScipyIVP computes accelerations and multipliers itself; the system may have been assembled without the
+            # consistency solve (u_dot0, la_g0 left at zero)
+            "assemble_consistent": solver != "ScipyIVP" or draw(st.booleans()),
             "dsv_linear_solver": draw(st.sampled_from(["LU", "MINRES (matrix free)"]))}
 
 
@@ -64,7 +67,7 @@ def check(spec):
     D = sysbuild.dense
     solver = spec["solver"]
     site = solver
-    system, objs = dynbuild.build_mechanism(spec["mech"])
+    system, objs = dynbuild.build_mechanism(spec["mech"], consistent=spec.get("assemble_consistent", True))
     dt, n = spec["dt"], spec["nsteps"]
     t1 = system.t0 + n * dt
     feats = {"solver": solver, "mech": spec["mech"]["kind"], "dt": dt}
